@@ -772,6 +772,10 @@ func inProcess(c *lib.Ctx) {
 		})
 		c.Case(lib.App("CExpand", coqEnv(fixed), lib.Str(x), lib.Str(out)), caseJS{Kind: "os-expand", Note: x + " -> " + out}, "ex"+x, strings.Contains(x, "$"))
 	}
+
+	// round-2 streams (same process environment discipline, same scratch configuration directory)
+	triStateStream(c)
+	headerStream(c)
 }
 
 // unchangedFraming renders what the UNCHANGED code hashes of the given pass_env names under a caller: name, '=', value per
@@ -1279,6 +1283,7 @@ func main() {
 		if os.Getenv("C10_SKIP_E2E") == "" {
 			endToEnd(c)
 			endToEndSandbox(c, userns)
+			endToEndR2(c)
 		}
 		inProcess(c)
 		execStream(c, userns)
